@@ -40,7 +40,8 @@ type xrefStmSpec struct {
 	NoIndex  bool    // never write /Index (the rows are then numbered from 0)
 	W        []int64 // forced /W (dictionary only; rows keep their true widths unless WRows)
 	WRows    bool    // lay the rows out with W (needs len(W)==3, small values)
-	Trail    int     // filler bytes added to the input of the LAST decode stage (see addFiller)
+	Trail    int     // filler bytes added to the input of decode stage TrailAt (0: the LAST stage; see addFiller)
+	TrailAt  int
 	Garbage  bool    // replace the encoded data by bytes no filter accepts (decode table probe)
 	stageOut []int64 // filled by the writer: output size of every decode stage
 }
@@ -53,6 +54,8 @@ type objStmSpec struct {
 	ExtraPairs int    // additional "num offset" pairs in the prolog (empty objects behind the last member)
 	PrologPad  int    // extra blanks at the end of the prolog (grows /First with real data)
 	Garbage    bool   // replace the encoded data by bytes no filter accepts (decode table probe)
+	Trail      int    // filler bytes added to the input of decode stage TrailAt (see addFiller)
+	TrailAt    int
 	stageOut   []int64
 }
 
@@ -81,6 +84,12 @@ func encodeStages(payload []byte, fs []pdfgen.FilterSpec, trailAt, trail int) ([
 	out := make([]int64, len(fs))
 	data := payload
 	for i := len(fs) - 1; i >= 0; i-- {
+		if fs[i].Predictor > 1 && i < len(fs)-1 {
+			// the output of a predictor stage is a whole number of rows: filler that stage i+1 skips
+			if rb := fs[i].RowBytes(); len(data)%rb != 0 {
+				data = addFiller(data, fs[i+1].Kind, rb-len(data)%rb)
+			}
+		}
 		out[i] = int64(len(data))
 		enc, err := pdfgen.EncodeStage(data, fs[i])
 		if err != nil {
@@ -234,7 +243,7 @@ func (d *mdoc) write() ([]byte, *mlayout, error) {
 		if d.OS.PadTo > len(content) {
 			content = append(content, bytes.Repeat([]byte{'\n'}, d.OS.PadTo-len(content))...)
 		}
-		enc, stageOut, err := encodeStages(content, d.OS.Filters, 0, 0)
+		enc, stageOut, err := encodeStages(content, d.OS.Filters, d.OS.TrailAt, d.OS.Trail)
 		if err != nil {
 			return nil, nil, err
 		}
@@ -339,7 +348,11 @@ func (d *mdoc) write() ([]byte, *mlayout, error) {
 		padRows := (d.XS.PadTo - len(rows) + rowLen - 1) / rowLen
 		rows = append(rows, make([]byte, padRows*rowLen)...)
 	}
-	enc, stageOut, err := encodeStages(rows, d.XS.Filters, len(d.XS.Filters)-1, d.XS.Trail)
+	xsTrailAt := d.XS.TrailAt
+	if xsTrailAt == 0 {
+		xsTrailAt = len(d.XS.Filters) - 1
+	}
+	enc, stageOut, err := encodeStages(rows, d.XS.Filters, xsTrailAt, d.XS.Trail)
 	if err != nil {
 		return nil, nil, err
 	}
